@@ -474,7 +474,13 @@ func (sb *SegmentBase) InterpretVectorIndex(field string, requiresFiltering bool
 							}
 						}
 					}
-					selector, err = faiss.NewIDSelectorNot(ineligibleVectorIDs)
+					if len(ineligibleVectorIDs) > 0 {
+						selector, err = faiss.NewIDSelectorNot(ineligibleVectorIDs)
+					} else {
+						// every vector is eligible (the documents that are not have
+						// none): there is nothing to build an exclusion selector from
+						selector, err = faiss.NewIDSelectorBatch(vectorIDsToInclude)
+					}
 				} else {
 					selector, err = faiss.NewIDSelectorBatch(vectorIDsToInclude)
 				}
